@@ -19,6 +19,7 @@ CHECK = {
     ],
     "level_text": "Kernel-checked Lean theorems about an executable model of the MSM/FFT/evaluation-domain algorithms (all lengths, all thread counts), with the model checked against the real entry points on every run",
     "level_note": "Trusted: Lean kernel, the correspondence harness and driver; blst group arithmetic and rayon's scheduler are modelled, not verified. "
+                  "l_i_range at a domain point is a recorded known finding (full-strength statement disproved in Lean, partial theorem off the nodes). "
                   "Bit-reversal swap loop = recursive permutation is kernel-checked only up to 2^7 (larger sizes by correspondence); "
                   "batch_add's affine chord/tangent formulas are modelled as the group law (their correctness belongs to C11).",
     "assumptions": [
